@@ -595,6 +595,13 @@ class Sim:
             o = self.rv(self.ev(args_nodes[0]))
             self.event({'kind': 'fence', 'order': ORDER_NAMES.get(o[1], '?') if is_const(o) else '?', 'line': n.get('line')})
             return None
+        if name == 'std::exchange' and len(args_nodes) == 2:
+            # old = obj; obj = new_value; return old
+            x = self.ev(args_nodes[0])
+            old = self.rv(x)
+            nv = self.rv(self.ev(args_nodes[1]))
+            self.write(self.lv_path(x), nv, n.get('line'))
+            return old
         if name in ('std::bit_cast', 'std::move', 'std::forward', 'std::addressof', 'std::as_const'):
             x = self.ev(args_nodes[0])
             if name == 'std::bit_cast':
